@@ -124,6 +124,9 @@ class Episode:
             if cfg["kind"] == "periodic":
                 tr["meta"]["first_next_execution_timestep"] = int(ag.next_execution_timestep)
                 tr["meta"]["start_node"] = str(ag.start_node)
+            if cfg["kind"] == "prob" and ag.config.type == "probabilistic-agent":
+                keys = list((ag.config.agent_settings.action_probabilities or {}).keys())
+                tr["meta"]["keys_ascending"] = keys == sorted(keys)
             self.watched.append((name, ag, tr))
         self._s0: Dict[str, int] = {}
         self._len: Dict[str, int] = {}
@@ -372,7 +375,19 @@ def run_env(env_config, label: str, steps: int, seed: int, blue: str, episodes: 
 
 
 def sig_fn(tr, event, stuck):
-    return {"agent_type": tr.get("meta", {}).get("type"), "kind": tr["cfg"].get("kind")}
+    """Canonical key arguments of a rejected event (so that different causes get different signatures)."""
+    meta, cfg = tr.get("meta", {}), tr["cfg"]
+    sig = {"agent_type": meta.get("type"), "kind": cfg.get("kind")}
+    fail = (stuck or {}).get("fail") or []
+    if event.get("ev") == "Raised":
+        sig["exception"] = event.get("action")
+        if cfg["kind"] == "tap":
+            sig["first_turn_may_be_step_0"] = cfg["start"] - cfg["var"] <= 0
+    if cfg["kind"] == "prob" and "NeverZeroProbability" in fail:
+        sig["probability_keys_in_ascending_order"] = bool(meta.get("keys_ascending", True))
+    if cfg["kind"] == "periodic" and "FirstActionInStartWindow" in fail:
+        sig["first_planned_step_negative"] = int(meta.get("first_next_execution_timestep", 0)) < 0
+    return sig
 
 
 def rejected_by_signature(traces: List[Dict[str, Any]], res: Dict[str, Any]) -> Dict[str, int]:
@@ -383,7 +398,8 @@ def rejected_by_signature(traces: List[Dict[str, Any]], res: Dict[str, Any]) -> 
             continue
         ev = tr["ev"][reached - 1] if 0 < reached <= length else {}
         fail = (stuck or {}).get("fail") or []
-        key = f"{tr['meta'].get('type')}|{ev.get('ev')}|{','.join(sorted(fail)) if fail else 'no-matching-action'}"
+        extra = {k: v for k, v in sig_fn(tr, ev, stuck).items() if k not in ("agent_type", "kind")}
+        key = f"{tr['meta'].get('type')}|{ev.get('ev')}|{','.join(sorted(fail)) if fail else 'no-matching-action'}|{extra}"
         seen[key] = seen.get(key, 0) + 1
     return seen
 
@@ -473,12 +489,19 @@ def main(tier: str, seed: int) -> int:
     for (s, sv, f, v, mx) in EDGE_PERIODIC:
         for typ in ("periodic-agent", "red-database-corrupting-agent"):
             per.append((typ, {"start": s, "startVar": sv, "freq": f, "var": v, "maxExec": mx}))
+    n_before_mirror = len(per)
     if not quick:
         per += mirrored_enumeration()
     # max_executions is not honoured by the red-database-corrupting-agent (finding): so that this does not hide
     # the rest of those episodes from the start / gap clauses, each of its settings is also run without a maximum
     per += [(typ, {**st, "maxExec": None}) for typ, st in per if typ == "red-database-corrupting-agent" and st["maxExec"] is not None]
     prob_tables = prob_tables[: (4 if quick else 40)] + EDGE_PROB
+    if not quick:
+        # the probability tables of MC_Agents.cfg, mirrored: keys in ascending order, and written in reverse order
+        for pm in itertools.product((0, 400, 1000), repeat=3):
+            if sum(pm):
+                tb = [(i, v / sum(pm)) for i, v in enumerate(pm)]
+                prob_tables += [tb, tb[::-1]]
     mark("simulate")
     common.boot()
     install()
@@ -498,7 +521,7 @@ def main(tier: str, seed: int) -> int:
         for j in range(2):
             tb = prob_tables[(gi // group * 2 + j) % len(prob_tables)]
             defs.append(prob_def(f"prob_{gi}_{j}", tb, HOSTS[j]))
-        for sd in seeds:
+        for sd in (seeds if gi < n_before_mirror else seeds[:2]):
             trs, _ = run_generated(defs, gsteps, sd * 7919 + gi, "generated_lan")
             traces += trs
             games += 1
@@ -516,7 +539,7 @@ def main(tier: str, seed: int) -> int:
                                      "mirrored_enumeration": 0 if quick else len(mirrored_enumeration()),
                                      "probability_tables": len(prob_tables)}
     # 3. shipped scenarios
-    steps = 50 if quick else 128
+    steps = 45 if quick else 128
     nseeds = 2 if quick else 3
     env_stats: Dict[str, Any] = {}
 
@@ -538,13 +561,14 @@ def main(tier: str, seed: int) -> int:
     uc7 = scenarios.shipped("uc7_config.yaml")
     uc7_3 = scenarios.shipped("uc7_config_tap003.yaml")
     for i in range(nseeds):
-        traces += shipped_run(uc7, "uc7_config", "random" if i else "mixed", [1] if quick else [1, 2], seed + 21 * i)
-        traces += shipped_run(uc7_3, "uc7_config_tap003", "random" if i else "mixed", [1] if quick else [1, 2], seed + 31 * i)
+        eps = [1, 2] if (i == 1 and not quick) else [1]
+        traces += shipped_run(uc7, "uc7_config", "random" if i else "mixed", eps, seed + 21 * i)
+        traces += shipped_run(uc7_3, "uc7_config_tap003", "random" if i else "mixed", eps, seed + 31 * i)
     variants_dir = str(scenarios.PKG / "uc7_multiple_attack_variants")
     for i in range(1 if quick else 2):
         # schedule: 0 TAP001_PC1, 1 TAP001_PC2, 2 TAP001_PC3, 5 TAP003   (quick: one TAP001 variant and the TAP003 one)
         traces += shipped_run(variants_dir, "uc7_multiple_attack_variants", "mixed" if i == 0 else "random",
-                              [rng.choice([0, 1, 2]), 5] if quick else [0, 1, 2, 5], seed + 41 * i, n_steps=40 if quick else None)
+                              [rng.choice([0, 1, 2]), 5] if quick else [0, 1, 2, 5], seed + 41 * i, n_steps=36 if quick else None)
     # 3b. the two UC7 files with other TAP settings (repeat flags, probabilities, schedule)
     tap_vars: List[Tuple[str, Dict[str, Any], str]] = [
         ("tap-001", dict(start_step=2, frequency=1, variance=0, repeat_kill_chain=True, repeat_kill_chain_stages=True), "passive"),
@@ -565,14 +589,14 @@ def main(tier: str, seed: int) -> int:
                 tap_vars.append((typ, dict(start_step=2, frequency=2, variance=1, repeat_kill_chain=flags[0], repeat_kill_chain_stages=flags[1], prob=0.7), "random"))
                 tap_vars.append((typ, dict(start_step=5, frequency=3, variance=2, repeat_kill_chain=flags[0], repeat_kill_chain_stages=flags[1], prob=0.9), "mixed"))
     # settings drawn by TLC for threat-actor agents
-    for ts in tap_settings[: (1 if quick else 12)]:
+    for ts in tap_settings[: (1 if quick else 8)]:
         ts = dict(ts)
         typ = "tap-001" if ts.pop("nStages") == 6 else "tap-003"
         tap_vars.append((typ, ts, "mixed"))
     for j, (typ, kw, blue) in enumerate(tap_vars):
         base = uc7 if typ == "tap-001" else uc7_3
         lab = "uc7_config+settings" if typ == "tap-001" else "uc7_config_tap003+settings"
-        traces += shipped_run(tap_variant(base, **kw), lab, blue, [1], seed + 51 + j, n_steps=40 if quick else None, extra={"tap_settings": kw})
+        traces += shipped_run(tap_variant(base, **kw), lab, blue, [1], seed + 51 + j, n_steps=36 if quick else 96, extra={"tap_settings": kw})
     mark("shipped")
     # 4. TLC judges every trace
     res = tlc.validate("AgentsTrace", traces, chunk=150)
